@@ -294,7 +294,7 @@ func autoReplay(P *Program, repoDir, verifDir, prop string, r *FuncResult, o *Ob
 	os.WriteFile(testFile, []byte(b.String()), 0o644)
 	os.WriteFile(genFile, []byte(P.genSrc), 0o644)
 	ov := map[string]map[string]string{"Replace": {
-		filepath.Join(P.pkgDir, "zz_govc_replay_test.go"):      testFile,
+		filepath.Join(P.pkgDir, "zz_govc_replay_test.go"):     testFile,
 		filepath.Join(P.pkgDir, "zz_govc_generated_verif.go"): genFile,
 	}}
 	ob, _ := json.MarshalIndent(ov, "", " ")
